@@ -396,6 +396,8 @@ def jobs(tier, seed):
         out.append({'name': 'result %s' % cls, 'kind': 'result', 'cls': cls, 'tier': tier, 'cost': 30})
     out.append({'name': 'json stub conformance', 'kind': 'jsonconf', 'cost': 1})
     fam = [l for l in C.lattice_family(tier, seed) if l['flags'] is None]
+    # a lattice whose origins need seven decimals (spacing 1/128): a dictionary form that rounds coordinates shows here
+    fam.append(C.lattice('2x2 dh=1/128', 2, 2, 0.0078125, (-116.9921875, 34.0234375)))
     for lat in fam:
         out.append({'name': 'region %s' % lat['name'], 'kind': 'region', 'lat': lat, 'tier': tier, 'cost': 20})
     for j in out:
@@ -405,6 +407,7 @@ def jobs(tier, seed):
 
 def run_job(job):
     snap = C.stats_snapshot()
+    core.MODE['float'] = 'fp' if job['kind'] == 'region' else 'xr'
     res = globals()['_job_' + job['kind']](job)
     res.update(C.stats_delta(snap))
     return res
@@ -614,6 +617,45 @@ def _job_region(job):
     reg2 = regions.CartesianGrid2D.from_dict(d2)
     lon, la = z3.FP('lon', F64), z3.FP('lat', F64)
     TO = 150 if job['tier'] == 'quick' else 900
+    pre = []
+    arrays_equal = all(np.array_equal(np.asarray(getattr(reg, a)), np.asarray(getattr(reg2, a))) for a in ('xs', 'ys'))
+    if not arrays_equal:
+        # the rebuilt region has different edge arrays: ask for a separating coordinate one axis at a time (one symbolic
+        # double, two 1-D kernels) before the 2-D query; the other coordinate is put on a cell midpoint
+        calc = L.load('csep.utils.calc')
+        for axis, e1, e2, other in (('lon', reg.xs, reg2.xs, reg.ys), ('lat', reg.ys, reg2.ys, reg.xs)):
+            v = z3.FP('v_' + axis, F64)
+            if len(symnp.asarray(e1)) != len(symnp.asarray(e2)):
+                continue
+
+            def run1():
+                core.assume(C.fin(v))
+                pt = symnp.asarray([SFP(v)])
+                return calc.bin1d_vec(pt, e1).a.reshape(-1)[0], calc.bin1d_vec(pt, e2).a.reshape(-1)[0]
+            p1, _ = core.explore(run1, max_paths=50)
+            for P in p1:
+                if P.kind != 'ok':
+                    continue
+                a_, b_ = P.value
+                ta = a_.t if isinstance(a_, SBV) else z3.BitVecVal(int(a_), 64)
+                tb = b_.t if isinstance(b_, SBV) else z3.BitVecVal(int(b_), 64)
+                st, mod, t = C.solve([ta != tb], TO, P.pc)
+                if st == 'sat':
+                    x = core.fp_from_model(mod, v)
+                    mids = [float(m) + lat['dh'] / 2 for m in np.asarray(symnp.unwrap(symnp.asarray(other))).reshape(-1)]
+                    for m in mids:
+                        cex = {'kind': 'region', 'lat': lat, 'lon': x if axis == 'lon' else m, 'lat_v': m if axis == 'lon' else x}
+                        o = C._replayed(Obligation('%s axis: same bin from both edge arrays' % axis, st, t, cex), replay)
+                        if o.reproduced:
+                            pre.append(o)
+                            break
+                    if pre:
+                        break
+            if pre:
+                break
+    if pre:
+        return {'obligations': [o.as_dict() for o in pre],
+                'samples': [{'lattice': lat['name'], 'note': 'rebuilt region has different edge arrays; separating point found on one axis'}]}
 
     def look(r, lons, lats):
         try:
